@@ -18,6 +18,10 @@ SCHEMAS = [
     ["repeat", ["list", [["bool"], ["intmod", 3]]], 2],
     ["list", [["list", [["intmod", 2], ["intmod", 4]]], ["bool"]]],
     ["list", []],
+    ["intmod", 1],
+    ["list", [["intmod", 1], ["bool"]]],
+    ["list", [["bool"], ["intmod", 1], ["intmod", 3]]],
+    ["repeat", ["intmod", 1], 2],
 ]
 
 
@@ -78,7 +82,7 @@ def pack_programs(tier):
 
 def bits_programs(b):
     progs = []
-    for n in [None] + list(range(1, b + 3)):
+    for n in [None] + list(range(0, b + 3)):
         w = b if n is None else n
         for v in range(-2, (1 << w) + 2):
             B = gen.Builder("bits/%s/%d" % (n, v), "plain", None, {"family": "bits", "v": v, "n": w, "explicit": n is not None})
